@@ -229,7 +229,16 @@ class Interp:
                     p2.env[a.var] = QPoly.var(nm)
                     out.append(p2)
             else:
-                raise Unsupported(f"functional assignment {a.payload[0]}")
+                fname, arg = a.payload
+                try:
+                    q = self.val(renv, QPoly.const(Fraction(arg))) if not arg[0].isalpha() and arg[0] != "_" else self.lookup(renv, arg)
+                except ValueError:
+                    q = self.lookup(renv, arg)
+                if not q.is_const():
+                    raise Unsupported(f"functional assignment {fname} of a non-constant value (continuous draw or symbol)")
+                from .qpoly import fn_atom
+                p2.env[a.var] = fn_atom(fname.lower(), q.cval())
+                out.append(p2)
         return out
 
     def start(self, env=None):
